@@ -469,6 +469,17 @@ def gen_case(rng, nblocks=None, with_data=True, with_funcs=True, nedits=None, cf
             seen.add(d["func"])
             d["entry"] = True
     case = {"isa": "X64", "ff": "ELF", "text": text, "externs": externs}
+    if with_data and rng.random() < 0.2:
+        # a second section with data blocks (symbols, pointers into the code)
+        ds = []
+        for i in range(rng.randint(1, 3)):
+            d = {"kind": "data", "bytes": [rng.randrange(256) for _ in range(rng.choice([4, 8, 8, 12]))], "syms": [{"name": "D%d" % i, "at_end": False}]}
+            if len(d["bytes"]) >= 8 and code_labels and rng.random() < 0.6:
+                d["symexprs"] = [[0, rng.choice(code_labels), rng.choice([0, 0, 4])]]
+                d["bytes"][0:8] = [0] * 8
+            ds.append(d)
+        case["sections"] = [".data"]
+        case["sect:.data"] = ds
     case["edits"] = gen_edits(rng, case, nedits)
     # module entry point, DT_INIT and DT_FINI on code blocks
     code_idx = [i for i, d in enumerate(text) if d["kind"] == "code"]
@@ -484,7 +495,7 @@ def gen_case(rng, nblocks=None, with_data=True, with_funcs=True, nedits=None, cf
     if cfg_domain:
         # C03: keep the module inside "CFG consistent with the code": drop requests that would
         # leave code running off into data / the end of the section
-        case["edits"] = [e for e in case["edits"] if not runs_off_end({"text": text, "edits": [e]})]
+        case["edits"] = [e for e in case["edits"] if not runs_off_end(dict(case, edits=[e]))]
     return case
 
 
@@ -514,7 +525,7 @@ DATA_PATCHES = [
 
 
 def gen_edits(rng, case, nedits=None):
-    text = case["text"]
+    text = flat_of(case)
     labels = [s["name"] for d in text if d["kind"] == "code" for s in d["syms"] if not s.get("at_end")]
     ext = list(case.get("externs", []))
     auto = nedits is None
@@ -717,18 +728,29 @@ def block_size(d):
     return block_layout(d)[-1] if d["kind"] == "code" else len(d["bytes"])
 
 
+def flat_of(case):
+    """all block descriptions in the order of B.blocks (the request's block index): .text first, then the other
+    sections in the order of case["sections"]; each tagged with its section key"""
+    out = []
+    for key in ["text"] + ["sect:" + n for n in case.get("sections", [])]:
+        for d in case.get(key, []):
+            d["_sect"] = key
+            out.append(d)
+    return out
+
+
 def runs_off_end(case):
     """C03 is about modules whose CFG matches their code.  A request that removes the
     terminator (jmp/ret) of a block which is not followed by code leaves code that runs off
     into data or the end of the section: nothing the rewriter could connect it to."""
-    text = case["text"]
+    text = flat_of(case)
     for e in case.get("edits", []):
         d = text[e["block"]]
         if d["kind"] != "code":
             continue
         size = block_size(d)
         nxt = e["block"] + 1
-        follows_code = nxt < len(text) and text[nxt]["kind"] == "code"
+        follows_code = nxt < len(text) and text[nxt]["kind"] == "code" and text[nxt]["_sect"] == d["_sect"]
         if follows_code:
             continue
         if e["op"] == "insert":
@@ -757,7 +779,7 @@ def predicted_rejections(case):
         wholly deleted in the same batch; the label slides to the next block, and
         when that is a data block the assembler rightly refuses the branch.
     """
-    text = case["text"]
+    text = flat_of(case)
     out = set()
     whole = set()
     for e in case.get("edits", []):
